@@ -428,7 +428,9 @@ func (c *Ctx) queryMode(asserts []string, extra []string, mode int) string {
 				p = alt
 			}
 		}
-		if mode >= 1 && strings.HasPrefix(p, "(assert (forall") {
+		if mode >= 1 && mode != 5 && strings.HasPrefix(p, "(assert (forall") {
+			// weak variant of a function obligation: no quantified prelude axioms at all
+			// (mode 5, used for lemmas, keeps them: an induction needs the recursive definition)
 			continue
 		}
 		b.WriteString(p)
